@@ -373,7 +373,7 @@ def main():
     seed = int(os.environ.get("VERIF_SEED", "0") or 0)
     t0 = time.time()
     units = [u for u in load_units()["units"] if prop in u.get("serves", [])]
-    known = [k for k in load_known()["findings"] if k["property"] == prop]
+    known = [k for k in load_known()["findings"] if prop in k.get("properties", [k.get("property")])]
     os.makedirs(EVID, exist_ok=True)
     evid_path = os.path.join(EVID, prop + ".json")
     if os.path.exists(evid_path):
